@@ -58,8 +58,7 @@ def placeBlocks (K2 : Bytes) (idxSize : Nat) :
     | none => .error .indexError                        -- pop from empty list
     | some pos => do
       let ptr ← intToBytesNat pos idxSize
-      let (iv, t1) ← takeBytes 16 t
-      let d ← cfg.ske.encrypt lv.E K2 iv blk
+      let (d, t1) ← skeEncrypt cfg.ske lv K2 blk t
       if pos ≥ A.length then throw .indexError
       let (ptrs, avail', A', t2) ← placeBlocks K2 idxSize rest avail.dropLast (A.set pos (some d)) t1
       pure (ptr :: ptrs, avail', A', t2)
